@@ -667,12 +667,21 @@ func c07ReaderChain(v ssa.Value, fns []*ssa.Function, depth int) []c07leaf {
 	return []c07leaf{{removed: removed, why: "reader chain too long"}}
 }
 
-// c07IgnoreCRLF: R07f. In the function that builds the segment scanner, the scanner's source removes every CR and every
-// LF exactly on the alternatives selected by the ignore_crlf declaration field.
+// c07IgnoreCRLF: R07f. The scanner's source is followed back - through replacing-reader layers, Phi alternatives,
+// helpers of the repository that compute the reader (every return is an alternative) and parameters of helpers whose
+// callers are all visible - to the reader the constructing function is given. Every alternative must be decided by a
+// test of the ignore_crlf declaration field (in whichever of these functions the test is made): on the alternatives
+// with ignore_crlf set both CR and LF are removed, on the others nothing is removed.
 func c07IgnoreCRLF(c *core.Ctx, r *c07roles, res *a5Resolver, fns []*ssa.Function, scanners []ssa.CallInstruction) {
+	callers := h4CallersIndex(c)
+	x := &c07crlf{res: res, fns: fns, callers: callers, tests: map[*ssa.Function][]c07crlfTest{}}
 	for _, ci := range scanners {
 		f := ci.Parent()
+		owners := h4Owners(ci, callers)
 		key := core.FuncKey(f) + " ignore_crlf removes CR and LF before the scanner"
+		if len(owners) == 1 {
+			key = core.FuncKey(owners[0]) + " ignore_crlf removes CR and LF before the scanner"
+		}
 		var rd ssa.Value
 		for _, a := range ci.Common().Args {
 			if c18IsIOReader(a.Type()) {
@@ -683,78 +692,23 @@ func c07IgnoreCRLF(c *core.Ctx, r *c07roles, res *a5Resolver, fns []*ssa.Functio
 			c.Unknown("R07f", key, core.InstrPos(ci), "scanner call without an io.Reader argument")
 			continue
 		}
-		// tests of the ignore_crlf setting in this function
-		type tst struct{ blk, on, off *ssa.BasicBlock }
-		var tests []tst
-		for _, b := range f.Blocks {
-			ifi, ok := b.Instrs[len(b.Instrs)-1].(*ssa.If)
-			if !ok {
-				continue
+		on0, off0 := x.atBlock(f, ci.Block())
+		bad, nOn, nAlt := "", 0, 0
+		for _, l := range x.sources(rd, true, 0) {
+			l.on, l.off = l.on || on0, l.off || off0
+			if l.on && l.off {
+				continue // contradictory tests: not a path
 			}
-			cond, neg := ifi.Cond, false
-			if u, ok := cond.(*ssa.UnOp); ok && u.Op == token.NOT {
-				cond, neg = u.X, true
-			}
-			if _, isBool := cond.Type().Underlying().(*types.Basic); !isBool {
-				continue
-			}
-			switch cond.(type) {
-			case *ssa.UnOp, *ssa.Parameter, *ssa.Field:
-			default:
-				continue
-			}
-			o := res.Resolve(cond)
-			if fl := o.Fields(); len(fl) != 1 || fl[0] != "ignore_crlf" || len(o.Others()) > 0 {
-				continue
-			}
-			t := tst{b, b.Succs[0], b.Succs[1]}
-			if neg {
-				t.on, t.off = t.off, t.on
-			}
-			tests = append(tests, t)
-		}
-		leaves := c07ReaderChain(rd, fns, 0)
-		if len(tests) != 1 {
-			c.Bad("R07f", key, core.InstrPos(ci), fmt.Sprintf("the function that builds the segment scanner tests the ignore_crlf setting %d time(s), expected once: CR/LF are not removed from the scanner's input as ignore_crlf says", len(tests)))
-			continue
-		}
-		t := tests[0]
-		isOn := func(l c07leaf) (on, decided bool) {
-			if l.pred == nil {
-				return false, false
-			}
-			if len(t.on.Preds) == 1 && (t.on == l.pred || t.on.Dominates(l.pred)) {
-				return true, true
-			}
-			if l.pred == t.blk && l.phiBlk == t.off {
-				return false, true
-			}
-			if len(t.off.Preds) == 1 && (t.off == l.pred || t.off.Dominates(l.pred)) {
-				return false, true
-			}
-			return false, false
-		}
-		bad, nOn := "", 0
-		var param ssa.Value
-		for _, p := range f.Params {
-			if c18IsIOReader(p.Type()) {
-				param = p
-			}
-		}
-		for _, l := range leaves {
-			if l.why != "" {
-				bad = "source of the scanner not understood: " + l.why
-				break
-			}
-			if l.base != param {
-				bad = "the scanner does not read (a wrapping of) the reader the function is given"
-				break
-			}
-			on, decided := isOn(l)
+			nAlt++
+			prm, isParam := l.base.(*ssa.Parameter)
 			switch {
-			case !decided:
-				bad = "an alternative source of the scanner is not decided by the ignore_crlf test"
-			case on:
+			case l.why != "":
+				bad = "source of the scanner not understood: " + l.why
+			case !isParam || !c18IsIOReader(prm.Type()):
+				bad = "the scanner does not read (a wrapping of) the reader the function is given"
+			case !l.on && !l.off:
+				bad = "an alternative source of the scanner is not decided by a test of the ignore_crlf setting: CR/LF are not removed from the scanner's input as ignore_crlf says"
+			case l.on:
 				nOn++
 				if !l.removed["\r"] || !l.removed["\n"] {
 					bad = "with ignore_crlf set the scanner's input does not remove both CR and LF bytes: line breaks end up inside element values"
@@ -768,7 +722,10 @@ func c07IgnoreCRLF(c *core.Ctx, r *c07roles, res *a5Resolver, fns []*ssa.Functio
 				break
 			}
 		}
-		if bad == "" && nOn == 0 {
+		if bad == "" && nAlt == 0 {
+			bad = "no feasible source of the scanner found"
+		}
+		if bad == "" && nOn == 0 && !off0 {
 			bad = "no source of the scanner is selected by ignore_crlf being set"
 		}
 		if bad != "" {
@@ -778,6 +735,238 @@ func c07IgnoreCRLF(c *core.Ctx, r *c07roles, res *a5Resolver, fns []*ssa.Functio
 		}
 	}
 	c.Floor("R07f", 1, "NewNonValidatingReader")
+}
+
+type c07crlfTest struct{ blk, on, off *ssa.BasicBlock }
+
+type c07crlf struct {
+	res     *a5Resolver
+	fns     []*ssa.Function
+	callers func(*ssa.Function) []*ssa.Call
+	tests   map[*ssa.Function][]c07crlfTest
+}
+
+type c07alt struct {
+	removed map[string]bool
+	base    ssa.Value
+	why     string
+	on, off bool // established by tests of ignore_crlf on the way
+}
+
+// testsOf: the branches of g on the ignore_crlf declaration field.
+func (x *c07crlf) testsOf(g *ssa.Function) []c07crlfTest {
+	if ts, ok := x.tests[g]; ok {
+		return ts
+	}
+	var tests []c07crlfTest
+	for _, b := range g.Blocks {
+		if len(b.Instrs) == 0 {
+			continue
+		}
+		ifi, ok := b.Instrs[len(b.Instrs)-1].(*ssa.If)
+		if !ok {
+			continue
+		}
+		cond, neg := ifi.Cond, false
+		if u, ok := cond.(*ssa.UnOp); ok && u.Op == token.NOT {
+			cond, neg = u.X, true
+		}
+		if _, isBool := cond.Type().Underlying().(*types.Basic); !isBool {
+			continue
+		}
+		switch cond.(type) {
+		case *ssa.UnOp, *ssa.Parameter, *ssa.Field:
+		default:
+			continue
+		}
+		o := x.res.Resolve(cond)
+		if fl := o.Fields(); len(fl) != 1 || fl[0] != "ignore_crlf" || len(o.Others()) > 0 {
+			continue
+		}
+		t := c07crlfTest{b, b.Succs[0], b.Succs[1]}
+		if neg {
+			t.on, t.off = t.off, t.on
+		}
+		tests = append(tests, t)
+	}
+	x.tests[g] = tests
+	return tests
+}
+
+// atBlock: what the ignore_crlf tests of g that dominate b establish.
+func (x *c07crlf) atBlock(g *ssa.Function, b *ssa.BasicBlock) (on, off bool) {
+	for _, t := range x.testsOf(g) {
+		if t.on != t.off {
+			if len(t.on.Preds) == 1 && (t.on == b || t.on.Dominates(b)) {
+				on = true
+			}
+			if len(t.off.Preds) == 1 && (t.off == b || t.off.Dominates(b)) {
+				off = true
+			}
+		}
+	}
+	return
+}
+
+// atEdge: the same for the control-flow edge pred -> to.
+func (x *c07crlf) atEdge(g *ssa.Function, pred, to *ssa.BasicBlock) (on, off bool) {
+	on, off = x.atBlock(g, pred)
+	for _, t := range x.testsOf(g) {
+		if t.blk == pred && t.on != t.off {
+			if t.on == to {
+				on = true
+			}
+			if t.off == to {
+				off = true
+			}
+		}
+	}
+	return
+}
+
+func c07CopySet(a, b map[string]bool) map[string]bool {
+	m := map[string]bool{}
+	for k := range a {
+		m[k] = true
+	}
+	for k := range b {
+		m[k] = true
+	}
+	return m
+}
+
+// sources: the alternatives of the reader value v. up: a parameter of a helper whose callers are all visible is
+// followed to the arguments of its call sites (not when v is looked at on behalf of one particular call).
+func (x *c07crlf) sources(v ssa.Value, up bool, depth int) []c07alt {
+	removed := map[string]bool{}
+	if depth > 8 {
+		return []c07alt{{removed: removed, why: "reader chain too deep"}}
+	}
+	for i := 0; i < 16; i++ {
+		switch y := v.(type) {
+		case *ssa.MakeInterface:
+			v = y.X
+			continue
+		case *ssa.ChangeInterface:
+			v = y.X
+			continue
+		case *ssa.ChangeType:
+			v = y.X
+			continue
+		case *ssa.Phi:
+			var out []c07alt
+			for j, e := range y.Edges {
+				on, off := x.atEdge(y.Parent(), y.Block().Preds[j], y.Block())
+				for _, l := range x.sources(e, up, depth+1) {
+					l.removed = c07CopySet(removed, l.removed)
+					l.on, l.off = l.on || on, l.off || off
+					out = append(out, l)
+				}
+			}
+			return out
+		case *ssa.Parameter:
+			g := y.Parent()
+			cs := x.callers(g)
+			if !up || len(cs) == 0 || !h4AllCallersVisible(g) {
+				return []c07alt{{removed: removed, base: v}}
+			}
+			pi := -1
+			for k, p := range g.Params {
+				if p == y {
+					pi = k
+				}
+			}
+			var out []c07alt
+			for _, call := range cs {
+				if pi < 0 || pi >= len(call.Call.Args) {
+					return []c07alt{{removed: removed, why: "call site of " + core.FuncKey(g) + " without the reader argument"}}
+				}
+				on, off := x.atBlock(call.Parent(), call.Block())
+				for _, l := range x.sources(call.Call.Args[pi], true, depth+1) {
+					l.removed = c07CopySet(removed, l.removed)
+					l.on, l.off = l.on || on, l.off || off
+					out = append(out, l)
+				}
+			}
+			return out
+		case *ssa.Extract:
+			if call, ok := y.Tuple.(*ssa.Call); ok {
+				return x.throughHelper(call, y.Index, removed, up, depth)
+			}
+			return []c07alt{{removed: removed, base: v}}
+		case *ssa.Call:
+			if core.IsCallTo(y, c07IosPkg, "NewBytesReplacingReader") && len(y.Call.Args) == 3 {
+				search, known := "", false
+				switch a := y.Call.Args[1].(type) {
+				case *ssa.UnOp:
+					if g, ok := a.X.(*ssa.Global); ok && a.Op == token.MUL {
+						search, known = c07BytesOfGlobal(g, x.fns)
+					}
+				case *ssa.Convert:
+					if k, ok := a.X.(*ssa.Const); ok && k.Value != nil && k.Value.Kind() == constant.String {
+						search, known = constant.StringVal(k.Value), true
+					}
+				}
+				if !known {
+					return []c07alt{{removed: removed, why: "the byte sequence a replacing reader searches for is not a constant"}}
+				}
+				if core.IsNilConst(y.Call.Args[2]) {
+					removed[search] = true
+				}
+				v = y.Call.Args[0]
+				continue
+			}
+			return x.throughHelper(y, 0, removed, up, depth)
+		default:
+			return []c07alt{{removed: removed, base: v}}
+		}
+	}
+	return []c07alt{{removed: removed, why: "reader chain too long"}}
+}
+
+// throughHelper: result idx of a call to a repository helper: every return of the helper is an alternative, decided by
+// the helper's own tests; an alternative that ends at a parameter of the helper continues at the call's argument.
+func (x *c07crlf) throughHelper(call *ssa.Call, idx int, removed map[string]bool, up bool, depth int) []c07alt {
+	h := call.Call.StaticCallee()
+	if call.Call.IsInvoke() || h == nil || h.Blocks == nil || !core.InRepo(core.FuncPkg(h)) {
+		return []c07alt{{removed: removed, why: "reader produced by " + call.Call.String()}}
+	}
+	var out []c07alt
+	for _, rt := range c19Returns(h) {
+		if idx >= len(rt.Results) {
+			continue
+		}
+		on, off := x.atBlock(h, rt.Block())
+		for _, l := range x.sources(rt.Results[idx], false, depth+1) {
+			l.removed = c07CopySet(removed, l.removed)
+			l.on, l.off = l.on || on, l.off || off
+			prm, isParam := l.base.(*ssa.Parameter)
+			if l.why != "" || !isParam || prm.Parent() != h {
+				out = append(out, l)
+				continue
+			}
+			pi := -1
+			for k, p := range h.Params {
+				if p == prm {
+					pi = k
+				}
+			}
+			if pi < 0 || pi >= len(call.Call.Args) {
+				l.base, l.why = nil, "parameter of "+core.FuncKey(h)+" not bound at the call"
+				out = append(out, l)
+				continue
+			}
+			for _, m := range x.sources(call.Call.Args[pi], up, depth+1) {
+				m.removed = c07CopySet(l.removed, m.removed)
+				m.on, m.off = m.on || l.on, m.off || l.off
+				out = append(out, m)
+			}
+		}
+	}
+	if len(out) == 0 {
+		return []c07alt{{removed: removed, why: "reader produced by " + call.Call.String()}}
+	}
+	return out
 }
 
 // c07Unescape: R07b.
@@ -898,32 +1087,195 @@ func c07Creates(g *ssa.Function, r *c07roles, d int) bool {
 	return false
 }
 
-// c07Missing: R07c.
-func c07Missing(c *core.Ctx, r *c07roles, fns []*ssa.Function, callersIn func(*ssa.Function) []*ssa.Call) {
-	for _, f := range fns {
-		// the segment -> node function: loads RawSegElem.Data and creates nodes
-		loadsData, creates := false, false
-		for _, b := range f.Blocks {
-			for _, in := range b.Instrs {
-				switch x := in.(type) {
-				case *ssa.FieldAddr:
-					if core.FieldOfAddr(x) == r.dataFld {
-						for _, u := range core.Referrers(x) {
-							if _, ok := u.(*ssa.UnOp); ok {
-								loadsData = true
-							}
+// c07LoadsData: g (or a helper of the package it calls) reads RawSegElem.Data.
+func c07LoadsData(g *ssa.Function, r *c07roles, d int, seen map[*ssa.Function]bool) bool {
+	if g == nil || g.Blocks == nil || d > 3 || seen[g] {
+		return false
+	}
+	seen[g] = true
+	for _, b := range g.Blocks {
+		for _, in := range b.Instrs {
+			switch x := in.(type) {
+			case *ssa.FieldAddr:
+				if core.FieldOfAddr(x) == r.dataFld {
+					for _, u := range core.Referrers(x) {
+						if _, ok := u.(*ssa.UnOp); ok {
+							return true
 						}
 					}
-				case *ssa.Field:
-					if core.FieldOfField(x) == r.dataFld {
-						loadsData = true
-					}
+				}
+			case *ssa.Field:
+				if core.FieldOfField(x) == r.dataFld {
+					return true
 				}
 			}
 		}
-		creates = c07Creates(f, r, 0)
-		res := f.Signature.Results()
-		if !loadsData || !creates || res.Len() != 2 || !c19IsError(res.At(1).Type()) {
+	}
+	for _, ci := range core.Calls(g) {
+		if h := ci.Common().StaticCallee(); h != nil && h != g && core.FuncPkg(h) == r.edi && c07LoadsData(h, r, d+1, seen) {
+			return true
+		}
+	}
+	return false
+}
+
+// c07IsSegToNode: (node, error) function of the package that reads raw element data and creates nodes.
+func c07IsSegToNode(f *ssa.Function, r *c07roles) bool {
+	if f == nil || f.Blocks == nil {
+		return false
+	}
+	res := f.Signature.Results()
+	if res.Len() != 2 || !c19IsError(res.At(1).Type()) {
+		return false
+	}
+	return c07Creates(f, r, 0) && c07LoadsData(f, r, 0, map[*ssa.Function]bool{})
+}
+
+func c07FieldOfLoad(v ssa.Value) *types.Var {
+	u, ok := v.(*ssa.UnOp)
+	if !ok || u.Op != token.MUL {
+		if fv, ok := v.(*ssa.Field); ok {
+			return core.FieldOfField(fv)
+		}
+		return nil
+	}
+	if fa, ok := u.X.(*ssa.FieldAddr); ok {
+		return core.FieldOfAddr(fa)
+	}
+	return nil
+}
+
+// c07BoolHelperResult: v is a bool result of a call to a helper of package edi (with a body).
+func c07BoolHelperResult(v ssa.Value, r *c07roles) (*ssa.Function, int) {
+	idx := 0
+	if ex, ok := v.(*ssa.Extract); ok {
+		v, idx = ex.Tuple, ex.Index
+	}
+	call, ok := v.(*ssa.Call)
+	if !ok || call.Call.IsInvoke() {
+		return nil, 0
+	}
+	h := call.Call.StaticCallee()
+	if h == nil || h.Blocks == nil || core.FuncPkg(h) != r.edi || idx >= h.Signature.Results().Len() {
+		return nil, 0
+	}
+	if b, ok := h.Signature.Results().At(idx).Type().Underlying().(*types.Basic); !ok || b.Kind() != types.Bool {
+		return nil, 0
+	}
+	return h, idx
+}
+
+// c07ElemTest: what the truth value pol of the boolean v says about the element declaration: noE = empty_if_missing
+// is false, noD = default is nil.
+func c07ElemTest(v ssa.Value, pol bool, r *c07roles) (noE, noD bool) {
+	if u, ok := v.(*ssa.UnOp); ok && u.Op == token.NOT {
+		v, pol = u.X, !pol
+	}
+	if c07FieldOfLoad(v) == r.emptyFld {
+		return !pol, false
+	}
+	if bo, ok := v.(*ssa.BinOp); ok && (bo.Op == token.NEQ || bo.Op == token.EQL) {
+		var other ssa.Value
+		switch {
+		case c07FieldOfLoad(bo.X) == r.defFld:
+			other = bo.Y
+		case c07FieldOfLoad(bo.Y) == r.defFld:
+			other = bo.X
+		}
+		if other != nil && core.IsNilConst(other) {
+			return false, (bo.Op == token.EQL) == pol
+		}
+	}
+	return false, false
+}
+
+// c07FactsAtEdge: facts about the element declaration established by the branches of h that dominate the edge
+// from -> to (to == nil: the block from itself).
+func c07FactsAtEdge(h *ssa.Function, from, to *ssa.BasicBlock, r *c07roles) (noE, noD bool) {
+	for _, t := range h.Blocks {
+		ifi, ok := t.Instrs[len(t.Instrs)-1].(*ssa.If)
+		if !ok {
+			continue
+		}
+		for k, pol := range []bool{true, false} {
+			succ := t.Succs[k]
+			holds := len(succ.Preds) == 1 && (succ == from || succ.Dominates(from))
+			if !holds && to != nil && t == from && succ == to && t.Succs[1-k] != to {
+				holds = true
+			}
+			if holds {
+				e, d := c07ElemTest(ifi.Cond, pol, r)
+				noE, noD = noE || e, noD || d
+			}
+		}
+	}
+	return
+}
+
+// c07OutcomeFacts: the facts about the element declaration that hold whenever result idx of the predicate helper h
+// is pol, over all returns (and all alternatives of a short-circuit value).
+func c07OutcomeFacts(h *ssa.Function, idx int, pol bool, r *c07roles) (noE, noD bool) {
+	noE, noD = true, true
+	n := 0
+	var visit func(v ssa.Value, from, to *ssa.BasicBlock, depth int)
+	visit = func(v ssa.Value, from, to *ssa.BasicBlock, depth int) {
+		if k, ok := v.(*ssa.Const); ok && k.Value != nil && k.Value.Kind() == constant.Bool {
+			if constant.BoolVal(k.Value) != pol {
+				return // this alternative never yields pol
+			}
+		}
+		if phi, ok := v.(*ssa.Phi); ok && depth < 4 {
+			for j, e := range phi.Edges {
+				visit(e, phi.Block().Preds[j], phi.Block(), depth+1)
+			}
+			return
+		}
+		n++
+		e1, d1 := c07FactsAtEdge(h, from, to, r)
+		e2, d2 := c07ElemTest(v, pol, r)
+		noE, noD = noE && (e1 || e2), noD && (d1 || d2)
+	}
+	for _, rt := range c19Returns(h) {
+		if idx < len(rt.Results) {
+			visit(rt.Results[idx], rt.Block(), nil, 0)
+		}
+	}
+	if n == 0 {
+		return false, false
+	}
+	return
+}
+
+// c07Missing: R07c.
+func c07Missing(c *core.Ctx, r *c07roles, fns []*ssa.Function, callersIn func(*ssa.Function) []*ssa.Call) {
+	for _, f := range fns {
+		// the segment -> node function: loads RawSegElem.Data and creates nodes (itself or through helpers of the
+		// package) and returns (node, error); of a call chain of such functions the innermost one is meant
+		if !c07IsSegToNode(f, r) {
+			continue
+		}
+		inner := false
+		seenG := map[*ssa.Function]bool{f: true}
+		var below func(g *ssa.Function, d int)
+		below = func(g *ssa.Function, d int) {
+			if d > 3 || inner {
+				return
+			}
+			for _, ci := range core.Calls(g) {
+				h := ci.Common().StaticCallee()
+				if h == nil || h.Blocks == nil || seenG[h] || core.FuncPkg(h) != r.edi {
+					continue
+				}
+				seenG[h] = true
+				if c07IsSegToNode(h, r) {
+					inner = true
+					return
+				}
+				below(h, d+1)
+			}
+		}
+		below(f, 0)
+		if inner {
 			continue
 		}
 		fk := core.FuncKey(f)
@@ -946,20 +1298,8 @@ func c07Missing(c *core.Ctx, r *c07roles, fns []*ssa.Function, callersIn func(*s
 		}
 		// (2) the missing-element block
 		type edge struct{ no *ssa.BasicBlock }
-		var noE, noD []*ssa.BasicBlock
-		fieldOfLoad := func(v ssa.Value) *types.Var {
-			u, ok := v.(*ssa.UnOp)
-			if !ok || u.Op != token.MUL {
-				if fv, ok := v.(*ssa.Field); ok {
-					return core.FieldOfField(fv)
-				}
-				return nil
-			}
-			if fa, ok := u.X.(*ssa.FieldAddr); ok {
-				return core.FieldOfAddr(fa)
-			}
-			return nil
-		}
+		var noE, noD, both []*ssa.BasicBlock
+		fieldOfLoad := c07FieldOfLoad
 		for _, b := range f.Blocks {
 			ifi, ok := b.Instrs[len(b.Instrs)-1].(*ssa.If)
 			if !ok {
@@ -975,6 +1315,26 @@ func c07Missing(c *core.Ctx, r *c07roles, fns []*ssa.Function, callersIn func(*s
 					noE = append(noE, b.Succs[0])
 				} else {
 					noE = append(noE, b.Succs[1])
+				}
+				continue
+			}
+			// the decision is delegated to a predicate helper of the package: what each outcome says about
+			// empty_if_missing / default is derived from the helper's returns
+			if h, idx := c07BoolHelperResult(cond, r); h != nil {
+				for _, pol := range []bool{true, false} {
+					e, d := c07OutcomeFacts(h, idx, pol, r)
+					succ := b.Succs[1]
+					if pol != neg {
+						succ = b.Succs[0]
+					}
+					switch {
+					case e && d:
+						both = append(both, succ)
+					case e:
+						noE = append(noE, succ)
+					case d:
+						noD = append(noD, succ)
+					}
 				}
 				continue
 			}
@@ -1015,6 +1375,11 @@ func c07Missing(c *core.Ctx, r *c07roles, fns []*ssa.Function, callersIn func(*s
 		}
 		for _, b := range noE {
 			add(b, noD)
+		}
+		for _, b := range both {
+			if len(b.Preds) == 1 {
+				miss = append(miss, b)
+			}
 		}
 		key := fk + " missing element without default"
 		if len(miss) != 1 {
@@ -1093,6 +1458,26 @@ func c07Missing(c *core.Ctx, r *c07roles, fns []*ssa.Function, callersIn func(*s
 						return
 					}
 					seen[v] = true
+					// the value is computed by a helper of the package: its returned values are the alternatives
+					{
+						cv, idx := v, 0
+						if ex, ok := cv.(*ssa.Extract); ok {
+							cv, idx = ex.Tuple, ex.Index
+						}
+						if hc, ok := cv.(*ssa.Call); ok && !hc.Call.IsInvoke() {
+							if h := hc.Call.StaticCallee(); h != nil && h.Blocks != nil && core.FuncPkg(h) == r.edi && len(seen) < 64 {
+								rets := c19Returns(h)
+								for _, rt := range rets {
+									if idx < len(rt.Results) {
+										leaves(rt.Results[idx])
+									}
+								}
+								if len(rets) > 0 {
+									return
+								}
+							}
+						}
+					}
 					switch x := v.(type) {
 					case *ssa.Phi:
 						for _, e := range x.Edges {
